@@ -548,6 +548,18 @@ impl Compiler<'_, '_, '_, '_> {
 // We also require that `extra_v` is None, since otherwise the user might have
 // additional values stashed somewhere.
 pub(crate) fn possible_gc(eval: &mut Evaluator) {
+    #[cfg(feature = "verif_hooks")]
+    match crate::verif_hooks::gc_decide() {
+        crate::verif_hooks::GcDecision::Default => {}
+        crate::verif_hooks::GcDecision::Skip => return,
+        crate::verif_hooks::GcDecision::Collect => {
+            if !eval.disable_gc {
+                unsafe { eval.garbage_collect() }
+                eval.next_gc_level = cmp::max(eval.heap().allocated_bytes() * 2, GC_THRESHOLD);
+            }
+            return;
+        }
+    }
     if !eval.disable_gc && eval.heap().allocated_bytes() >= eval.next_gc_level {
         // When we are at a module scope (as checked above) the eval contains
         // references to all values, so walking covers everything and the unsafe
